@@ -143,6 +143,15 @@ func (p *sqlProg) both(q string, args ...any) {
 		p.failedStm = true // in autocommit a failing statement is rolled back by SQLite (xRollback)
 	}
 	if class(es) != class(en) {
+		// F24 (see compareQuery): a phantom row left by an earlier rollback makes a later INSERT of that key fail
+		// (the native INSERT has succeeded by now, so the phantom shows as: s3db refuses the key, and afterwards
+		// both tables hold the same keys — or s3db still holds extra ones)
+		if p.failedStm && p.height() >= 1 && strings.HasPrefix(q, "insert") && class(es) == "constraint" && en == nil &&
+			(p.phantomOnly() || p.sameKeys()) && p.st.known("F24") {
+			p.st.Count("known_F24")
+			p.aborted = true
+			return
+		}
 		p.fail(fmt.Sprintf("statement outcome differs: %s %v: s3db %v, native %v", q, argStr(args), es, en))
 	}
 	if class(es) == "constraint" {
@@ -507,6 +516,21 @@ func (p *sqlProg) phantomOnly() bool {
 	}
 	for _, r := range b {
 		if !have[r[0]] {
+			return false
+		}
+	}
+	return true
+}
+
+// sameKeys: the s3db table and the native twin hold exactly the same keys.
+func (p *sqlProg) sameKeys() bool {
+	a, e1 := sqlh.Query(p.db, `select k from "`+p.cur+`" order by k`)
+	b, e2 := sqlh.Query(p.db, `select k from n order by k`)
+	if e1 != nil || e2 != nil || len(a) != len(b) {
+		return false
+	}
+	for i := range a {
+		if a[i][0] != b[i][0] {
 			return false
 		}
 	}
